@@ -22,6 +22,7 @@ const (
 	VWrong       = "wrong-result" // reference-model oracle
 	VRace        = "data-race"    // reported by the driver from the race build
 	VLiveness    = "no-progress"
+	VHistory     = "history-dependent-result" // an epoch's results depend on which epochs ran before it (fresh processes)
 	VHarnessFail = "harness"
 )
 
@@ -53,6 +54,11 @@ type Options struct {
 	// operation alone, in reverse order, on fresh objects; the result must not
 	// depend on what was called before (purity).
 	Reverse bool
+	// Permute: execute the epochs in reverse order (results are still
+	// reported under the epoch's own index).
+	Permute bool
+	// KeepKeys: keep the result key of every operation in Outcome.EpochOpKeys.
+	KeepKeys bool
 	// Plan, if set, is called after the sequential pass of every epoch with
 	// the statement counts of its operations, and fills in the schedule.
 	Plan func(ei int, steps [][]uint64)
@@ -67,22 +73,24 @@ type OpStat struct {
 
 // Outcome is everything one execution produced.
 type Outcome struct {
-	Violations []Violation
-	Hash       uint64 // hash of the complete event and result log
-	Steps      uint64
-	Switches   uint64
-	Preempts   uint64
-	Ops        int
-	Reused     int // operations that ran on a reused caller-owned object
-	Faults     map[string]int
-	FaultKinds []string
-	SchedHash  uint64
-	Overlaps   []Overlap
-	SiteHits   []uint32
-	OpSteps    [][][]uint64 // [epoch][task][op] statement counts of the sequential pass
-	Trace      []string
-	Deadlock   bool
-	MaxOpSteps uint64
+	Violations  []Violation
+	Hash        uint64 // hash of the complete event and result log
+	Steps       uint64
+	Switches    uint64
+	Preempts    uint64
+	Ops         int
+	Reused      int // operations that ran on a reused caller-owned object
+	Faults      map[string]int
+	FaultKinds  []string
+	SchedHash   uint64
+	Overlaps    []Overlap
+	SiteHits    []uint32
+	OpSteps     [][][]uint64 // [epoch][task][op] statement counts of the sequential pass
+	EpochKeys   []uint64     // per epoch (own index): digest of all results of the scheduled pass
+	EpochOpKeys [][]string   // per epoch: "task.op kind key" lines (only with KeepKeys)
+	Trace       []string
+	Deadlock    bool
+	MaxOpSteps  uint64
 }
 
 type sharedVar struct {
@@ -342,7 +350,14 @@ func Execute(p *Program, opt *Options) *Outcome {
 	h := fnv.New64a()
 	sched := fnv.New64a()
 	seen := map[string]string{} // (mode, op description) -> result key, across epochs
-	for ei := range p.Epochs {
+	out.EpochKeys = make([]uint64, len(p.Epochs))
+	out.EpochOpKeys = make([][]string, len(p.Epochs))
+	out.OpSteps = make([][][]uint64, len(p.Epochs))
+	for k := range p.Epochs {
+		ei := k
+		if opt.Permute {
+			ei = len(p.Epochs) - 1 - k
+		}
 		ep := &p.Epochs[ei]
 		ref := runEpochPass(p, ei, opt, false)
 		steps := make([][]uint64, len(ep.Tasks))
@@ -354,7 +369,7 @@ func Execute(p *Program, opt *Options) *Outcome {
 				}
 			}
 		}
-		out.OpSteps = append(out.OpSteps, steps)
+		out.OpSteps[ei] = steps
 		out.Steps += ref.sim.Steps
 		if opt.RefOnly {
 			out.Violations = append(out.Violations, ref.viol...)
@@ -408,6 +423,20 @@ func Execute(p *Program, opt *Options) *Outcome {
 				out.Ops++
 				kr, kc := rr.Key(), rc.Key()
 				fmt.Fprintf(h, "%d.%d:%s|%s;", ti, oi, kr, kc)
+				ek := out.EpochKeys[ei]
+				if ek == 0 {
+					ek = fnvOff
+				}
+				for i := 0; i < len(kc); i++ {
+					ek ^= uint64(kc[i])
+					ek *= fnvPrime
+				}
+				ek ^= uint64(ti)<<32 | uint64(oi)
+				ek *= fnvPrime
+				out.EpochKeys[ei] = ek
+				if opt.KeepKeys {
+					out.EpochOpKeys[ei] = append(out.EpochOpKeys[ei], fmt.Sprintf("%d.%d %s %s", ti, oi, op.Kind, kc))
+				}
 				add := func(class, detail string) {
 					viol = append(viol, Violation{Property: opt.Property, Class: class, Op: op.Kind, Detail: detail, Epoch: ei, Task: ti, Index: oi})
 				}
